@@ -163,6 +163,13 @@ def checkUP (op : String) (args res : List String) : Verdict :=
        | "sub", [a, b], [r] => (match U a, U b with | some a, some b => judgeUP K tag "up-sub" r (MPoly.sub K a b) | _, _ => .skip "bad")
        | "mul", [a, b], [r] => (match U a, U b with | some a, some b => judgeUP K tag "up-mul" r (MPoly.mul K a b) | _, _ => .skip "bad")
        | "neg", [a], [r] => (match U a with | some a => judgeUP K tag "up-neg" r (MPoly.neg K a) | _ => .skip "bad")
+       | "cmp", [a, b], [c1, c2] => (match U a, U b, pInt? c1, pInt? c2 with
+           | some a, some b, some c1, some c2 =>
+             let same := MPoly.normalize K a = MPoly.normalize K b
+             if same ≠ (c1 = 0) then .viol "up-cmp" s!"cmp = {c1} for {if same then "equal" else "different"} polynomials"
+             else if c2 ≠ -c1 then .viol "up-cmp" s!"cmp is not antisymmetric: {c1} and {c2}"
+             else .ok s!"{tag}/{if same then "eq" else "ne"}"
+           | _, _, _, _ => .skip "bad")
        | "mulc", [a, c], [r] => (match U a, pInt? c with | some a, some c => judgeUP K tag "up-mulc" r (MPoly.mulInt K a c) | _, _ => .skip "bad")
        | "pow", [a, n], [r] => (match U a, pNat? n with | some a, some n => judgeUP K tag "up-pow" r (MPoly.pow K a n) | _, _ => .skip "bad")
        | "deriv", [a], [r] => (match U a with | some a => judgeUP K tag "up-deriv" r (MPoly.derivative K a 0) | _ => .skip "bad")
@@ -339,6 +346,9 @@ def checkOrd (op : String) (args res : List String) : Verdict :=
        else if inOrd ≠ "1" then .viol "ord-check" "check_order is false right after ensure_order"
        else .ok "keep"
      | _, _, _ => .skip "bad")
+  | "found", [w], [f] =>
+    if f = "1" then .ok s!"ord/container/{w}"
+    else .viol "ord-container" "a polynomial inserted into a hash set after an order change is not found under an equal key"
   | "cleaned", [_], [a, b] =>
     if a = "1" ∧ b = "1" then .ok "cleaned" else .viol "ord-external" s!"external operand of eq/cmp left out of order after the call ({a} {b})"
   | "eqhash", [rs, p, q], [e, hp, hq, c] =>
